@@ -26,7 +26,8 @@ RULE = ('(a) Rule-based state machine: a byte stream (valid encodings, cut-short
         ' Later additions: streams assembled from segments whose yield is known by construction (whole message,'
         ' message cut short, stray bytes, lone F7, undefined status) fed one chunk per segment in cycling'
         ' container types; two feeder threads on a ParserQueue under the scheduler; a bystander instance; 70 000'
-        ' pending messages / a 70 000-byte sysex with expectations known by construction.')
+        ' pending messages / a 70 000-byte sysex with expectations known by construction; every retrieved message is a'
+        ' new object with time 0, is stamped by the harness and compared through a private copy.')
 ASSUMPTIONS = ['parse_all on the whole stream is itself held to C04/C06',
                'whether messages fed from inside a running for-loop are delivered by that loop or by the next retrieval '
                'is not fixed by the statement; only order, completeness and pending() are asserted']
